@@ -1,15 +1,26 @@
 import GaeaVerif.Sexp
 import GaeaVerif.Model.IPAllow
+import GaeaVerif.Model.IPAllowReload
 /-
   Driver for C35.  Requests (ENTRY = hex of the entry text, `-` = empty):
     m (allow (ENTRY…) IPHEX)     parseAllowIps + IsClientIPAllowed on a net.IP (4/16 bytes, `-` = nil)
     m (conn (ENTRY…) REMOTEHEX)  parseAllowIps + Session.IsAllowConnect on the text of RemoteAddr()
     m (verify (ENTRY…))          models.Namespace.verifyAllowIps
+    m (reload (ENTRY…) OP…)      one proxy started with the list, then OP = (prepare (ENTRY…)) | (commit) | (delete)
+                                 | (conn REMOTEHEX): ReloadNamespacePrepare / Commit / DeleteNamespace of the
+                                 real Manager and Session.IsAllowConnect on it; one answer per OP
+    m (sock KIND (ENTRY…))       KIND = tcp4 | tcp6 | dual4 | unix: a real listener, a real client, the accepted
+                                 connection's own RemoteAddr(); answer (DECISION TEXTHEX), TEXT = the remote
+                                 address text with the port replaced by 1
+    m (hs KIND (ENTRY…))         Server.onConn on a real listener of the kind, a real client logging in with the
+                                 right password: (ok TEXTHEX) = OK packet, (denied TEXTHEX) = error 1045 ip not allowed,
+                                 (crash TEXTHEX) = the connection handler panicked with no recover above it
+    m (utilparse TEXTHEX)        util.parseAllowIps (comma-separated; no callers): (kept N)
     s <request> <implementation output>   property oracle
-  Outputs: t | f | ok | (err parse) | panic
+  Outputs: t | f | ok | (err parse) | (err notprepared) | panic
 -/
 namespace GaeaVerif.Drv.C35
-open GaeaVerif GaeaVerif.IPAllow
+open GaeaVerif GaeaVerif.IPAllow GaeaVerif.IPAllowReload
 
 def entries? (e : Sexp) : Option (List Bytes) :=
   match e with
@@ -21,6 +32,56 @@ def fmtRB : R Bool → String
   | .ok false => "f"
   | .fail => "(err parse)"
   | .panic => "panic"
+
+def fmtOut : MgrReload.Out → String
+  | .ok => "ok"
+  | .errNotPrepared => "(err notprepared)"
+  | .errBuild => "(err parse)"
+  | .panic => "panic"
+
+def fmtAns : Ans → String
+  | .out o => fmtOut o
+  | .dec d => fmtRB d
+
+/-- An operation of a `reload` request as sent by the harness. -/
+inductive ROp where
+  | prepare (l : List Bytes)
+  | commit
+  | delete
+  | conn (r : Bytes)
+
+def parseOp : Sexp → Option ROp
+  | .list [.atom "prepare", es] => (entries? es).map .prepare
+  | .list [.atom "commit"] => some .commit
+  | .list [.atom "delete"] => some .delete
+  | .list [.atom "conn", r] => r.asBytes?.map .conn
+  | _ => none
+
+def parseOps (ops : List Sexp) : Option (List ROp) := ops.mapM parseOp
+
+/-- The lists of the prepare operations, in order: the i-th one is version i. -/
+def prepLists : List ROp → List (List Bytes)
+  | [] => []
+  | .prepare l :: rest => l :: prepLists rest
+  | _ :: rest => prepLists rest
+
+def cfgOf (ls : List (List Bytes)) : Cfg := fun v => ls.getD v []
+
+/-- Versions are handed out in order of the prepare operations, from `next`. -/
+def toOps (next : Nat) : List ROp → List IPAllowReload.Op
+  | [] => []
+  | .prepare _ :: rest => .prepare next :: toOps (next + 1) rest
+  | .commit :: rest => .commit :: toOps next rest
+  | .delete :: rest => .delete :: toOps next rest
+  | .conn r :: rest => .conn r :: toOps next rest
+
+/-- The remote address text a real connection of the kind reports (port 1). -/
+def sockText : String → Option Bytes
+  | "tcp4" => some "127.0.0.1:1".toUTF8.toList
+  | "dual4" => some "127.0.0.1:1".toUTF8.toList
+  | "tcp6" => some "[::1]:1".toUTF8.toList
+  | "unix" => some "@".toUTF8.toList
+  | _ => none
 
 def model (req : Sexp) : String :=
   match req with
@@ -42,9 +103,36 @@ def model (req : Sexp) : String :=
       | .fail => "(err parse)"
       | .panic => "panic"
     | none => "bad"
+  | .list (.atom "reload" :: l0 :: ops) =>
+    match entries? l0, parseOps ops with
+    | some l0, some ops =>
+      let cfg := cfgOf (l0 :: prepLists ops)
+      "(" ++ " ".intercalate ((run netipParseAddr cfg (start netipParseAddr cfg) (toOps 1 ops)).map fmtAns) ++ ")"
+    | _, _ => "bad"
+  | .list [.atom "sock", .atom kind, es] =>
+    match entries? es, sockText kind with
+    | some es, some r =>
+      "(" ++ fmtRB (parseAllowIps netipParseAddr es >>= fun infos => isAllowConnect netipParseAddr infos r)
+        ++ " " ++ bytesToHex r ++ ")"
+    | _, _ => "bad"
+  | .list [.atom "hs", .atom kind, es] =>
+    match entries? es, sockText kind with
+    | some es, some r =>
+      let k := if kind == "unix" then ConnKind.unix else ConnKind.tcp
+      match parseAllowIps netipParseAddr es >>= fun infos => onConn netipParseAddr infos k r with
+      | .ok .ok => "(ok " ++ bytesToHex r ++ ")"
+      | .ok .denied => "(denied " ++ bytesToHex r ++ ")"
+      | .ok .crash => "(crash " ++ bytesToHex r ++ ")"
+      | .fail => "(err parse)"
+      | .panic => "panic"
+    | _, _ => "bad"
+  | .list [.atom "utilparse", t] =>
+    match t.asBytes? with
+    | some t => s!"(kept {(utilParseAllowIps netipParseAddr t).length})"
+    | none => "bad"
   | _ => "bad"
 
-/-! ### the property oracle: `uniformMatch` / `familyMatch` of the model file's Spec section -/
+/-! ### the property oracle: `uniformMatch` of the model file's Spec section -/
 
 def judge (es : List Bytes) (client : Bytes) (out : Sexp) : String :=
   let nonblank := (es.map trimSpace).filter (fun t => t.length ≠ 0)
@@ -52,15 +140,12 @@ def judge (es : List Bytes) (client : Bytes) (out : Sexp) : String :=
   let valid := ds.filterMap id
   let anyInvalid := ds.any Option.isNone
   let expected := nonblank.isEmpty || valid.any (fun e => uniformMatch e client)
-  let family := nonblank.isEmpty || valid.any (fun e => familyMatch e client)
   match out with
   | .atom "panic" => "viol allow-check-panic"
   | .list [.atom "err", .atom "parse"] => if anyInvalid then "ok" else "viol valid-list-rejected"
   | .atom "t" => if expected then "ok" else "viol unlisted-client-allowed"
   | .atom "f" =>
-    if !expected then "ok"
-    else if !family then "viol ipv4-client-in-short-ipv6-block-rejected"
-    else "viol listed-client-rejected"
+    if !expected then "ok" else "viol listed-client-rejected"
   | _ => "viol unparsable"
 
 /-- Client address of a connection: host of the remote address text, zone dropped. -/
@@ -70,6 +155,48 @@ def remoteClient (r : Bytes) : Bytes :=
   match netipParseAddr host with
   | some a => as16 a.bytes
   | none => []
+
+/-- The property over a history of one proxy, from the *observed* answers, as
+    `Spec.step` of Model/MgrReload.lean (C31) reads them: a successful prepare
+    records its list, a successful commit puts the list last prepared in force,
+    a successful delete leaves none in force (and forgets no prepared list: a
+    delete of an absent namespace is a no-op, a later commit may still
+    succeed), failed operations change nothing; every connecting client is
+    judged against the list in force.  A client of an absent namespace must be
+    refused; a list of valid entries must be preparable; nothing may panic. -/
+def judgeHistory (active prepared : Option (List Bytes)) : List (ROp × Sexp) → String
+  | [] => "ok"
+  | (op, out) :: rest =>
+    if out == .atom "panic" then "viol allow-check-panic" else
+    match op with
+    | .prepare l =>
+      let anyInvalid := ((l.map trimSpace).filter (fun t => t.length ≠ 0)).any
+        (fun t => (denote netipParseAddr t).isNone)
+      match out with
+      | .atom "ok" => judgeHistory active (some l) rest
+      | .list [.atom "err", .atom "parse"] =>
+        if anyInvalid then judgeHistory active prepared rest else "viol valid-list-rejected"
+      | _ => "viol unparsable"
+    | .commit =>
+      match out with
+      | .atom "ok" =>
+        match prepared with
+        | some l => judgeHistory (some l) prepared rest
+        | none => judgeHistory active prepared rest
+      | _ => judgeHistory active prepared rest
+    | .delete =>
+      match out with
+      | .atom "ok" => judgeHistory none prepared rest
+      | _ => judgeHistory active prepared rest
+    | .conn r =>
+      match active with
+      | none =>
+        if out == .atom "f" then judgeHistory active prepared rest
+        else "viol connected-to-absent-namespace"
+      | some l =>
+        match judge l (remoteClient r) out with
+        | "ok" => judgeHistory active prepared rest
+        | v => v
 
 def oracle (req out : Sexp) : String :=
   match req with
@@ -92,6 +219,45 @@ def oracle (req out : Sexp) : String :=
       | .atom "panic" => "viol allow-check-panic"
       | _ => "viol unparsable"
     | none => "bad"
+  | .list (.atom "reload" :: l0 :: ops) =>
+    match entries? l0, parseOps ops with
+    | some l0, some ops =>
+      match out with
+      | .atom "panic" => "viol allow-check-panic"
+      | .list outs =>
+        if outs.length ≠ ops.length then "viol unparsable"
+        else
+          let anyInvalid0 := ((l0.map trimSpace).filter (fun t => t.length ≠ 0)).any
+            (fun t => (denote netipParseAddr t).isNone)
+          -- a namespace whose start-up list holds a meaningless entry is not created
+          judgeHistory (if anyInvalid0 then none else some l0) none (ops.zip outs)
+      | _ => "viol unparsable"
+    | _, _ => "bad"
+  | .list [.atom "sock", .atom _, es] =>
+    match entries? es, out with
+    | some es, .list [d, t] =>
+      match t.asBytes? with
+      | some r => judge es (remoteClient r) d
+      | none => "viol unparsable"
+    | some _, .atom "panic" => "viol allow-check-panic"
+    | some _, _ => "viol unparsable"
+    | none, _ => "bad"
+  | .list [.atom "hs", .atom _, es] =>
+    match entries? es, out with
+    | some es, .list [.atom "ok", t] =>
+      match t.asBytes? with
+      | some r => judge es (remoteClient r) (.atom "t")
+      | none => "viol unparsable"
+    | some es, .list [.atom "denied", t] =>
+      match t.asBytes? with
+      | some r => judge es (remoteClient r) (.atom "f")
+      | none => "viol unparsable"
+    | some _, .list [.atom "crash", _] => "viol connection-handler-panics-unrecovered"
+    | some _, .atom "panic" => "viol allow-check-panic"
+    | some es, .list [.atom "err", .atom "parse"] => judge es [] (.list [.atom "err", .atom "parse"])
+    | some _, _ => "viol unparsable"
+    | none, _ => "bad"
+  | .list [.atom "utilparse", _] => "ok"   -- called by nothing (Gen.c35UtilParseAllowIpsCallers); no claim
   | _ => "bad"
 
 def handle (args : List Sexp) : String :=
